@@ -379,17 +379,32 @@ PropInitPlans(S, id, p) ==
                ELSE advance
          ELSE {<< WProp(S, id, [p EXCEPT !.ph.init = "D"]) >>}                                     \* PI-done
 
-\* PV-change: candidate configuration, rollback data; depends on the map order of the change
-ValidateChange(cfgvals, chvals, order) ==
-    LET RECURSIVE Go(_, _, _)
-        Go(cv, rb, ord) ==
-            IF ord = << >> THEN [cv |-> cv, rb |-> rb]
-            ELSE LET path == Head(ord)
-                     r == VO!ApplyChange(cv, path, chvals[path])
-                     rb1 == IF r.dp # "" THEN VO!Put(rb, r.dp, r.dv) ELSE rb
-                     rb2 == VO!Put(rb1, path, IF path \in DOMAIN cfgvals THEN cfgvals[path] ELSE VO!Tomb(0))
-                 IN Go(r.vals, rb2, Tail(ord))
-    IN Go(cfgvals, VO!EmptyMap, order)
+\* PV-change: the candidate configuration shown to the plugin and the rollback data (reconcileValidate).
+\* Deletes first: everything beneath a deleted path leaves the candidate and is captured for rollback; then the
+\* updates, which remove deleted parents (captured too).
+RECURSIVE ValDeletes(_, _, _, _, _)
+ValDeletes(cfgvals, chvals, cv, rb, ord) ==
+    IF ord = << >> THEN [cv |-> cv, rb |-> rb]
+    ELSE LET path == Head(ord)
+             kids == {k \in DOMAIN cfgvals : VO!HasPrefix(k, path) /\ k # path}
+             rb1 == [k \in (DOMAIN rb) \cup kids |-> IF k \in kids THEN cfgvals[k] ELSE rb[k]]
+             cv1 == VO!Put(VO!Drop(cv, kids), path, chvals[path])
+             rb2 == IF path \in DOMAIN cfgvals THEN VO!Put(rb1, path, cfgvals[path]) ELSE rb1
+         IN ValDeletes(cfgvals, chvals, cv1, rb2, Tail(ord))
+
+RECURSIVE ValUpdates(_, _, _, _, _)
+ValUpdates(cfgvals, chvals, cv, rb, ord) ==
+    IF ord = << >> THEN [cv |-> cv, rb |-> rb]
+    ELSE LET path == Head(ord)
+             r == VO!ApplyChange(cv, path, chvals[path])
+             rb1 == VO!Merge(rb, r.removed)
+             rb2 == VO!Put(rb1, path, IF path \in DOMAIN cfgvals THEN cfgvals[path] ELSE VO!Tomb(0))
+         IN ValUpdates(cfgvals, chvals, r.vals, rb2, Tail(ord))
+
+ValidateChange(cfgvals, chvals) ==
+    LET dels == {x \in DOMAIN chvals : chvals[x].d}
+        d == ValDeletes(cfgvals, chvals, cfgvals, VO!EmptyMap, VO!SortedSeq(dels))
+    IN ValUpdates(cfgvals, chvals, d.cv, d.rb, VO!SortedSeq((DOMAIN chvals) \ dels))
 
 DocValid(leaves) == \A path \in DOMAIN leaves : ~IsInvalidValue(leaves[path])
 
@@ -401,18 +416,17 @@ PropValidatePlans(S, id, p) ==
          IN
          IF p.prev # 0 /\ cfg.committed # p.prev THEN {<< Ret("prop", PID(p.t, p.prev)) >>}         \* PV-wait
          ELSE IF p.kind = "change" THEN
-              { LET r == ValidateChange(cfg.values, ChangeVals(p), ord)
-                    leaves == VO!DocLeaves(r.cv)
-                    valid == DocValid(leaves)
-                IN << PlugCall(id, leaves, valid),
-                      WProp(S, id, IF valid THEN [p EXCEPT !.ph.val = "D", !.rbidx = cfg.index, !.rbvals = r.rb]
-                                            ELSE [p EXCEPT !.ph.val = "F", !.fail = "INVALID"]) >>
-                : ord \in VO!Orders(DOMAIN p.ch) }                                                 \* PV-change
+              LET r == ValidateChange(cfg.values, ChangeVals(p))
+                  leaves == VO!DocLeaves(r.cv)
+                  valid == DocValid(leaves)
+              IN {<< PlugCall(id, leaves, valid),
+                     WProp(S, id, IF valid THEN [p EXCEPT !.ph.val = "D", !.rbidx = cfg.index, !.rbvals = r.rb]
+                                           ELSE [p EXCEPT !.ph.val = "F", !.fail = "INVALID"]) >>}          \* PV-change
          ELSE IF cfg.index # p.rb THEN failWith("FORBIDDEN")                                       \* PV-rb-refuse
          ELSE IF PID(p.t, p.rb) \notin DOMAIN S.props THEN failWith("NOT_FOUND")
          ELSE LET tp == S.props[PID(p.t, p.rb)] IN
               IF tp.kind = "rollback" THEN failWith("FORBIDDEN")
-              ELSE LET cv == VO!Merge(cfg.values, tp.rbvals)
+              ELSE LET cv == VO!ApplyAll(cfg.values, tp.rbvals)
                        leaves == VO!DocLeaves(cv)
                        valid == DocValid(leaves)
                    IN {<< PlugCall(id, leaves, valid),
@@ -437,21 +451,20 @@ PropAbortPlans(S, id, p) ==
       [] p.ph.abt = "D" -> IF p.next # 0 THEN {<< Ret("prop", PID(p.t, p.next)) >>} ELSE {<< >>}            \* PAb'
       [] OTHER -> {<< >>}
 
-\* PC-merge: both loops (AddDeleteChildren, applyChangeToConfig) run in Go map order
 PropCommitPlans(S, id, p) ==
     CASE p.ph.com = "I" ->
             IF p.t \notin DOMAIN S.cfgs THEN {<< >>}
             ELSE LET cfg == S.cfgs[p.t]
+                     \* the successor is re-queued as soon as the proposal is marked COMMITTED
+                     wakenext == IF p.next # 0 THEN << Ret("prop", PID(p.t, p.next)) >> ELSE << >>
                      done == WProp(S, id, [p EXCEPT !.ph.com = "D"])
                  IN IF cfg.committed = p.prev
                     THEN LET chvals == IF p.kind = "change" THEN ChangeVals(p) ELSE p.rbvals
                              newIndex == IF p.kind = "change" THEN p.i ELSE p.rbidx
-                         IN { << WCfgU(S, p.t, [cfg EXCEPT !.index = newIndex, !.committed = p.i, !.values = nv], id), done >>
-                              : nv \in { LET adc == VO!AddDeleteChildren(p.i, chvals, cfg.values, o1)
-                                         IN VO!StoreValues(cfg.values, VO!ApplyAll(adc.cfg, adc.upd, o2))
-                                         : o1 \in VO!Orders(DOMAIN chvals),
-                                           o2 \in VO!Orders(DOMAIN chvals \cup {k \in DOMAIN cfg.values : \E d \in DOMAIN chvals : chvals[d].d /\ VO!HasPrefix(k, d) /\ k # d}) } } \* PC-merge
-                    ELSE {<< done >>}                                                              \* PC-skip
+                             adc == VO!AddDeleteChildren(p.i, chvals, cfg.values)
+                             nv == VO!StoreValues(cfg.values, VO!ApplyAll(adc.cfg, adc.upd), TRUE)
+                         IN {<< WCfgU(S, p.t, [cfg EXCEPT !.index = newIndex, !.committed = p.i, !.values = nv], id), done >> \o wakenext} \* PC-merge
+                    ELSE {<< done >> \o wakenext}                                                  \* PC-skip
       [] p.ph.com = "D" -> IF p.next # 0 THEN {<< Ret("prop", PID(p.t, p.next)) >>} ELSE {<< >>}    \* PC'
       [] OTHER -> {<< >>}
 
@@ -469,13 +482,14 @@ PropApplyPlans(S, id, p) ==
                  ELSE IF cfg.state = "SYNCHRONIZING" \/ cfg.aterm < cfg.term \/ cfg.master = ""
                          \/ MasterConn(S, cfg, p.t) = NoId THEN {<< >>}                            \* PAp-wait*
                  ELSE LET chvals == IF p.kind = "change" THEN ChangeVals(p) ELSE p.rbvals
-                      IN { LET upd == VO!AddDeleteChildren(p.i, chvals, cfg.values, o1).upd
-                               sent == VO!PruneMap(upd, TRUE)
-                               sUpd == [path \in {x \in DOMAIN sent : ~sent[x].d} |-> sent[path].v]
-                               sDel == {x \in DOMAIN sent : sent[x].d}
-                               okCfg == [cfg EXCEPT !.applied = p.i,
-                                                    !.avalues = VO!StoreValues(cfg.avalues, VO!Merge(cfg.avalues, upd))]
-                           IN << DevSet(p.t, "prop", id, cfg.master, cfg.term, sUpd, sDel,
+                          upd == VO!AddDeleteChildren(p.i, chvals, cfg.values).upd
+                          sentp == VO!SentPaths(upd)
+                          sUpd == [path \in {x \in sentp : ~upd[x].d} |-> upd[path].v]
+                          sDel == {x \in sentp : upd[x].d}
+                          okCfg == [cfg EXCEPT !.applied = p.i,
+                                               !.avalues = VO!StoreValues(cfg.avalues, VO!Merge(cfg.avalues, upd), FALSE)]
+                      IN {
+                           << DevSet(p.t, "prop", id, cfg.master, cfg.term, sUpd, sDel,
                                     \* PAp-ok
                                     << WCfgSV(S, p.t, okCfg, TRUE),
                                        WProp(S, id, [p EXCEPT !.ph.app = "D", !.term = cfg.term]) >>,
@@ -485,8 +499,7 @@ PropApplyPlans(S, id, p) ==
                                        << WCfgS(S, p.t, [cfg EXCEPT !.applied = p.i], TRUE),
                                           WProp(S, id, [p EXCEPT !.ph.app = "F", !.fail = class, !.term = cfg.term]) >>],
                                     \* PAp-transient
-                                    << RetErr >>) >>
-                           : o1 \in VO!Orders(DOMAIN chvals) }                                      \* PAp-send
+                                    << RetErr >>) >> }                                             \* PAp-send
       [] p.ph.app = "D" -> IF p.next # 0 THEN {<< Ret("prop", PID(p.t, p.next)) >>} ELSE {<< >>}    \* PAp'
       [] OTHER -> {<< >>}
 
